@@ -33,6 +33,7 @@ type Scenario struct {
 	Fault string `json:"fault"`
 	Mod   string `json:"mod"`
 	Flag  string `json:"flag"` // none | version | help | bad
+	Stub  bool   `json:"stub"` // the command line carries -stub
 }
 
 type Pred struct {
@@ -243,7 +244,9 @@ func (r *runner) layout(dir string, sc Scenario) error {
 	core.WriteFile(filepath.Join(dir, "q", "q.go"), []byte("package q\n\nconst Q = 1\n"))
 	core.WriteFile(filepath.Join(dir, "README.txt"), []byte("scratch\n"))
 	if sc.Out == "otherpkg" {
-		os.MkdirAll(filepath.Join(dir, "mocks"), 0o755)
+		// an existing directory with permissions of its own (they are not moq's to change)
+		os.MkdirAll(filepath.Join(dir, "mocks"), 0o700)
+		os.Chmod(filepath.Join(dir, "mocks"), 0o700)
 	}
 	return nil
 }
@@ -300,6 +303,9 @@ func (r *runner) cmdline(sc Scenario, spelling, root string) (args []string, cwd
 	case "bad":
 		args = append(args, "-nosuchflag")
 	}
+	if sc.Stub {
+		args = append(args, "-stub")
+	}
 	if sc.Rm {
 		args = append(args, "-rm")
 	}
@@ -318,7 +324,7 @@ func (r *runner) cmdline(sc Scenario, spelling, root string) (args []string, cwd
 
 // reference: the complete output for (args, out mode), produced in stdout mode
 func (r *runner) reference(sc Scenario) ([]byte, error) {
-	key := sc.Args + "|" + sc.Out
+	key := sc.Args + "|" + sc.Out + "|" + fmt.Sprint(sc.Stub)
 	r.refMu.Lock()
 	defer r.refMu.Unlock()
 	if b, ok := r.ref[key]; ok {
@@ -333,6 +339,9 @@ func (r *runner) reference(sc Scenario) ([]byte, error) {
 		return nil, err
 	}
 	a := []string{}
+	if sc.Stub {
+		a = append(a, "-stub")
+	}
 	if sc.Out == "newdir" || sc.Out == "otherpkg" {
 		a = append(a, "-pkg", "mocks")
 	}
@@ -463,6 +472,9 @@ func (r *runner) runOnce(id int, pred Pred, spelling string) (*Rec, error) {
 		core.WriteFile(filepath.Join(outAbs, "keep.txt"), []byte("x\n"))
 	case "parentfile":
 		core.WriteFile(filepath.Join(root, "gen"), []byte("a file where a directory is needed\n"))
+	case "danglink":
+		core.WriteFile(filepath.Join(root, "legacy", "README"), []byte("the link's target is not here\n"))
+		os.Symlink(filepath.Join("..", "legacy", "store_mock.go"), outAbs)
 	}
 	var priorBytes []byte
 	if outAbs != "" {
@@ -535,7 +547,7 @@ func (r *runner) runOnce(id int, pred Pred, spelling string) (*Rec, error) {
 		o.StderrNamesArg = strings.Contains(st, "nosuchflag")
 	}
 	o.VersionPrinted = strings.HasPrefix(so.String(), "moq version ") && strings.Count(so.String(), "\n") == 1
-	ref, err := r.reference(Scenario{Out: sc.Out, Args: firstOK(sc.Args)})
+	ref, err := r.reference(Scenario{Out: sc.Out, Args: firstOK(sc.Args), Stub: sc.Stub})
 	if err != nil {
 		return nil, core.Infra("%v", err)
 	}
@@ -584,6 +596,8 @@ func (r *runner) runOnce(id int, pred Pred, spelling string) (*Rec, error) {
 			// but a directory that was there before is still there afterwards
 			if b.Kind == "dir" && (!ok || a.Kind != "dir") && !(sc.Prior == "dir" && p == r.outRel(sc)) {
 				o.OtherChanged = append(o.OtherChanged, "directory removed: "+p)
+			} else if b.Kind == "dir" && ok && a.Mode != b.Mode {
+				o.OtherChanged = append(o.OtherChanged, fmt.Sprintf("mode of existing directory changed: %s %v -> %v", p, b.Mode, a.Mode))
 			}
 			continue
 		}
